@@ -3,6 +3,7 @@ import ASV.Drv.C01
 import ASV.Spec.Grammar
 import ASV.Generated.ShippedRules
 import ASV.Spec.Rulesets
+import ASV.Spec.TokenLayout
 namespace ASV.Drv.C02
 open Lean ASV ASV.Drv ASV.Rules ASV.Parser ASV.Grammar
 
@@ -215,6 +216,45 @@ def handleTokens (j : Json) : R Json := do
   | .error e => return jObj [("err_tok", Json.str e.name)]
   | .ok toks => return jObj [("tokens", tokensJson toks)]
 
+/-! ### layout: the spec's `render` of written words with arbitrary filler, and what the tokeniser must return -/
+
+open ASV.Layout in
+def fillerOfJson (j : Json) : R Filler := do
+  match (j.getObjVal? "ws").toOption with
+  | some w =>
+    match (← asStr w).toList with
+    | [c] => pure (.ws c)
+    | _ => throw "layout: ws must be one character"
+  | none => return .comment (← strF j "c").toList
+
+open ASV.Layout in
+def wordOfString (t : String) : R Word :=
+  match t.toList with
+  | [] => throw "layout: empty word"
+  | [c] => pure (if isSingleCharToken c then .sym c else .word c [])
+  | c :: more => pure (.word c more)
+
+open ASV.Layout in
+/-- `tokenise_layout` instantiated on the implementation: the text is the spec's rendering of the
+    items, the items are legal, so the tokens must be exactly the written words -/
+def handleLayout (j : Json) : R Json := do
+  let text ← strF j "text"
+  let items ← listOf (fun it => do
+    return (← listOf fillerOfJson (← fld it "gap"), ← wordOfString (← strF it "w"))) (← fld j "items")
+  let tj ← fld j "tail"
+  let tail : Tail := { gap := ← listOf fillerOfJson (← fld tj "gap"),
+                       openComment := (match (tj.getObjVal? "open").toOption with
+                         | some (Json.str b) => some b.toList
+                         | _ => none) }
+  let rendered := String.ofList (render items ++ tail.chars)
+  let scope := okSeq false items && tail.ok
+  let expect := items.map fun x => mkTok x.2.text
+  let model := match tokenise text with
+    | .error e => [("err_tok", Json.str e.name)]
+    | .ok toks => [("tokens", tokensJson toks)]
+  return jObj (model ++ [("render_ok", toJson (rendered == text)), ("scope", toJson scope),
+                         ("expect", tokensJson expect)])
+
 /-! ### rulesets: `get_ruleset` sequences and `Ruleset.from_files` -/
 
 open ASV.Rulesets in
@@ -323,6 +363,7 @@ def handleFromFiles (j : Json) : R Json := do
 def handle (j : Json) : R Json := do
   match (← strF j "kind") with
   | "tokens" => handleTokens j
+  | "layout" => handleLayout j
   | "parse" => handleParse j
   | "rulesets" => handleRulesets j
   | "from_files" => handleFromFiles j
